@@ -342,6 +342,7 @@ pub enum BoardValidationError {
     InvalidCastleRights,
     InvalidEnpassant,
     TooManyPieces,
+    OpponentInCheck,
 }
 
 #[derive(Debug, Clone, Copy, PartialEq, Eq)]
@@ -399,6 +400,13 @@ impl Board {
 
         self.validate_en_passant()?;
         self.validate_castle_rights()?;
+
+        // the side that just moved may not have left its own king attacked
+        let mut flipped = *self;
+        flipped.turn = !self.turn;
+        if !flipped.is_legal_king_position(flipped.king_sq(flipped.turn)) {
+            return Err(BoardValidationError::OpponentInCheck);
+        }
 
         Ok(())
     }
